@@ -2,3 +2,4 @@ CONSTANTS NSeeds = 8
 NMax = 4
 SPECIFICATION Spec
 INVARIANT DimOK
+INVARIANT PertOK
